@@ -215,6 +215,65 @@ example : DecFacts 0x4480F0CF064DD592 := by decide +kernel
 example : DecFacts 1 := by decide +kernel
 example : DecFacts 0x40FE240000000000 := by decide +kernel
 
+/-- Unconditional round trip for integer-valued doubles in the fixed-notation range (|n| < 10^16):
+    `parse_str(to_string(x)) = x`, proved down to the bits, digit generation included. -/
+theorem repr_roundtrip_integer (bits n : Nat) (hb : bits < 2 ^ 64) (hf : isFinite bits = true)
+    (hn : (ratOf (decompose bits).2.1 (decompose bits).2.2).1 = n * (ratOf (decompose bits).2.1 (decompose bits).2.2).2)
+    (hr : (shortest bits).2 < 16 ∧ (shortest bits).2 > -5) :
+    parseStr (toString bits) = some bits := by
+  rw [repr_integer_dot_zero bits n hf hn hr]
+  have hd := natDigits_lt10 n
+  have hne := natDigits_ne_nil n
+  have hshape : (if isNeg bits = true then [45] else []) ++ showDigits (natDigits n) ++ [46, 48] =
+      (if isNeg bits = true then [45] else []) ++ showDigits (natDigits n) ++ 46 :: showDigits [0] := rfl
+  rw [hshape]
+  have h0 : ∀ d ∈ [0], d < 10 := by intro d hd; simp at hd; omega
+  have hplain : Plain ((if isNeg bits = true then [45] else []) ++ showDigits (natDigits n) ++ 46 :: showDigits [0]) :=
+    plain_append (plain_append (plain_sign _) (plain_showDigits _ hd)) (plain_cons (by omega) (plain_showDigits _ h0))
+  rw [parseStr_plain _ hplain, lexicalParse_fixed _ _ _ hne hd h0]
+  refine congrArg some ?_
+  unfold ofDecimal
+  have hdig : ofDigits (natDigits n ++ [0]) = 10 * n := by
+    rw [ofDigits_snoc, ofDigits_natDigits, Nat.add_zero]
+  simp only [hdig, List.length_singleton]
+  by_cases hz : n = 0
+  · subst hz
+    simp only [Nat.mul_zero, beq_self_eq_true, if_true]
+    -- value 0: both fields are zero
+    have hbf := bits_fields bits hb
+    have hfr := fracField_lt bits
+    unfold decompose ratOf at hn
+    simp only [Nat.zero_mul] at hn
+    by_cases he0 : expField bits = 0
+    · simp only [he0, beq_self_eq_true, if_true] at hn
+      have : ¬ ((-1074 : Int) ≥ 0) := by decide
+      simp only [this, if_false] at hn
+      rw [he0, hn] at hbf
+      generalize (if isNeg bits = true then 2 ^ 63 else 0) = sg at *
+      omega
+    · exfalso
+      have hb0 : (expField bits == 0) = false := by simpa using he0
+      simp only [hb0, Bool.false_eq_true, if_false] at hn
+      split at hn
+      · have : 0 < 2 ^ ((expField bits : Int) - 1075).toNat := Nat.pow_pos (by omega)
+        have := Nat.mul_pos (show 0 < fracField bits + 2 ^ 52 by omega) this
+        omega
+      · omega
+  · have hpos : 0 < n := by omega
+    have hne0 : ¬ (10 * n = 0) := by omega
+    simp only [beq_iff_eq, hne0, if_false]
+    have g1 : ¬ ((-((1 : Nat) : Int)) > 310) := by omega
+    have g2 : ¬ (((natDigits (10 * n)).length : Int) + -((1 : Nat) : Int) < -330) := by omega
+    simp only [g1, g2, if_false]
+    have hs : scale10 (10 * n) 1 (-((1 : Nat) : Int)) = (10 * n, 10) := by
+      unfold scale10; simp
+    rw [hs]
+    exact ofRat_ten_bits bits n hb hf hpos hn
+
+example : parseStr (toString 0x40FE240000000000) = some 0x40FE240000000000 :=
+  repr_roundtrip_integer _ 123456 (by decide) (by decide +kernel) (by decide +kernel) (by decide +kernel)
+
+
 /-- The unrestricted round trip fails: `0.9999999999999999` (`1 - 2^-53`) passes the
     `is_integer` test (`|v - round v| = 2^-53 < EPSILON`), is rendered `1.0` and parses back to `1.0`. -/
 def repr_roundtrip_full : Prop :=
